@@ -1712,7 +1712,7 @@ impl<'a> Parser<'a> {
     }
 
     fn interpolation(s: &mut Parser, _can_assign: bool) {
-        let mut arg_count = 0;
+        let mut arg_count: usize = 0;
         loop {
             if !s.previous.source.is_empty() {
                 let value = Value::ObjString(s.vm.new_gc_obj_string(&s.previous.source));
@@ -1734,6 +1734,9 @@ impl<'a> Parser<'a> {
             arg_count += 1;
         }
 
+        if arg_count > u8::MAX as usize {
+            s.error("Cannot have more than 255 parts in an interpolated string.");
+        }
         s.emit_bytes([OpCode::BuildString as u8, arg_count as u8]);
     }
 
